@@ -207,7 +207,12 @@ def _iter_anyobj_list(ex, v, s, st):
 
 Exec.iter_handlers[LAny.key] = _iter_anyobj_list
 S.CLASSES["MPoint"]["isinstance"] = lambda ex, v, names: v.t["_is_point"].t if "Point" in names else z3.BoolVal(False)
-S.CLASSES["MPoint"]["as_value"] = lambda ex, v, node: Val(Pt, pt_of(v))
+def _mp_as_value(ex, v, node):
+    ex.hazard("TypeError", o_is_some(v.t["_time"].t), node, "point.time is None")
+    return Val(Pt, pt_of(v))
+
+
+S.CLASSES["MPoint"]["as_value"] = _mp_as_value
 Exec.global_calls["datetime.datetime.now"] = lambda ex, node, st: Val(Dt, now_utc(z3.IntVal(0)))
 Exec.truthy_handlers["Tz"] = lambda ex, v: z3.BoolVal(True)
 
@@ -219,3 +224,38 @@ def _dt_cmp(ex, op, a, b, node, st):
 
 Exec.cmp_handlers[("Dt", "Dt")] = _dt_cmp
 Exec.isinstance_handlers["Dt"] = lambda ex, v, names, node, st: z3.BoolVal("datetime" in names)
+
+# ---- the updater closure: perform_update(point) mutates its argument and reports whether it changed
+def _call_updater(ex, u, node, st):
+    (an,) = node.args
+    p = ex.eval(an, st)
+    if p.ty != Pt:
+        raise Unsupported("perform_update on %s" % p.ty, node)
+    ex.hazard("UserError", z3.Not(upd_raises(u.t, p.t)), node, "update callable / validation raises")
+    new = Val(Pt, upd_result(u.t, p.t))
+    if node is not ex.root_call:
+        raise Unsupported("perform_update must be the root call of a statement", node)
+    ex.assign_to(an, new, st, check_owned=False)
+    return Val(TBool, new.t != p.t)
+
+
+Exec.call_handlers["Updater"] = _call_updater
+Exec.truthy_handlers["AnyV"] = lambda ex, v: z3.Function("av_truthy", sort_of(AnyV), z3.BoolSort())(v.t)
+
+# ---- None passed where an opaque update argument is expected; noop queries
+Exec.coercions.setdefault("AnyV", {})["None"] = lambda ex, v: Val(AnyV, AV_NONE)
+BaseTQ = TU("TagQueryBase")
+Exec.global_calls["tinyflux.queries.TagQuery"] = lambda ex, node, st: Val(BaseTQ, z3.Const("TagQuery()", sort_of(BaseTQ)))
+Exec.method_handlers[("TagQueryBase", "noop")] = lambda ex, v, node, st, rn: Val(Q, q_noop_tags)
+Exec.method_handlers[("MeasurementQueryBase", "noop")] = lambda ex, v, node, st, rn: Val(Q, q_noop_meas)
+
+
+def noop_axioms():
+    p = z3.Const("ax_p3", sort_of(Pt))
+    out = []
+    for q_, attr in ((q_noop_tags, A_TAGS), (q_noop_meas, A_MEAS)):
+        out += [z3.And(q_kind(q_) == 0, wfq(q_), z3.Not(q_hash_truthy(q_)), q_attr(q_) == attr), forall([p], sem(q_, p), patterns=[sem(q_, p)])]
+    return out
+
+
+S.THEORIES["dbqueries"] = S.THEORIES["dbqueries"] + noop_axioms()
